@@ -203,12 +203,15 @@ Section Exchange.
       if is_connect q then
         if c_mitm cfg then [EvRespond 200 []]
         else [EvDial (r_host q); EvRespond 200 (modify_response [])]
-      else [EvDial (r_host q); EvSend (r_host q); EvRespond (u_status up) (modify_response (u_hdr up))].
+      else match r_host q with
+           | [] => [EvRespond 500 []]
+           | _ => [EvDial (r_host q); EvSend (r_host q); EvRespond (u_status up) (modify_response (u_hdr up))]
+           end.
   Proof.
     intro H. unfold exchange.
     destruct (is_connect q); [rewrite connect_shape | rewrite handle_shape]; simpl; rewrite H.
     - destruct (c_mitm cfg); reflexivity.
-    - reflexivity.
+    - destruct (r_host q); reflexivity.
   Qed.
 End Exchange.
 
